@@ -1,13 +1,13 @@
 package core
 
 import (
-	"sync/atomic"
 	"encoding/hex"
 	"encoding/json"
 	"fmt"
 	"runtime"
 	"runtime/metrics"
 	"strings"
+	"sync/atomic"
 )
 
 // Hex is a byte string that marshals to a hex JSON string (scripts stay readable).
